@@ -399,13 +399,36 @@ class HtmlToAst(HTMLParser):
         super().__init__(convert_charrefs=convert_charrefs)
         self.struct = Tree(name)
 
+    # index in ``rawdata`` at which the construct that is being handled starts
+    _handled_from: int = 0
+
     def feed(self, source: str) -> Root:  # type: ignore[override]
         """Parse the source string."""
         self.struct.clear()
+        self._handled_from = 0
         super().feed(source)
         # flush any text the parser is still holding back (e.g. a trailing `<b` or `&amp`)
+        self._handled_from = 0
         super().close()
         return self.struct.outmost
+
+    def updatepos(self, i: int, j: int) -> int:
+        self._handled_from = j
+        return super().updatepos(i, j)
+
+    def _nest_reference(
+        self, klass: type[TerminalElement], prefix: str, data: str
+    ) -> None:
+        """Nest a character or entity reference onto the tree.
+
+        A reference that is written without the closing ``;`` (e.g. ``AT&T``)
+        is kept as the text it is, rather than being given a ``;`` on rendering.
+        """
+        end = self._handled_from + len(prefix) + len(data)
+        if not self.rawdata or self.rawdata.startswith(";", end):
+            self.struct.nest_terminal(klass, data)
+        else:
+            self.struct.nest_terminal(Data, prefix + data)
 
     def parse_marked_section(self, i: int, report: int = 1) -> int:
         """Parse a marked section, like ``<![CDATA[...]]>``.
@@ -445,10 +468,10 @@ class HtmlToAst(HTMLParser):
         self.struct.nest_terminal(Declaration, decl)
 
     def handle_charref(self, data: str):
-        self.struct.nest_terminal(Char, data)
+        self._nest_reference(Char, "&#", data)
 
     def handle_entityref(self, data: str):
-        self.struct.nest_terminal(Entity, data)
+        self._nest_reference(Entity, "&", data)
 
     def handle_pi(self, data: str):
         self.struct.nest_terminal(Pi, data)
